@@ -55,6 +55,11 @@ def main():
         n = int(rng.integers(2, 9 if quick else 11))
         cols = ['f1', 'f2', 'label']
         vals = ['', 'a', 'b', 'c', '{}', 'a b', 'é', '.', 'ab', '(a)', '?', 'N', '+', 'a ', 'A', ' ']
+        if case % 3 == 1:
+            # long values (URLs, ids with a common stem, combined features) that differ only at the end, in the middle or in
+            # the first character: the distinct count is over whole values whatever their length
+            stem = 'https://example.org/' + 'seg/' * 60
+            vals = vals[:4] + [stem + '1', stem + '2', stem + '12', 'X' + stem, stem[:130] + 'Z' + stem[130:], stem[:47] + '#' + stem[47:]]
         rows = [[str(rng.choice(vals[:int(rng.integers(2, len(vals) + 1))])) for _ in cols] for _ in range(n)]
         thr = int(rng.integers(0, 4))
         missing = str(rng.choice([',{}', 'NA', ',', '.', 'a.', '(a)', '?', '*,NA', '[a]', 'a|b', '\\N', '+']))   # symbols are literal strings, not patterns
